@@ -728,6 +728,9 @@ def run(ctx, config='rel-all'):
     from . import helpers
     helpers.check_vec(ctx, config, 'R12')
     helpers.check_effect(ctx, config, 'R13', ('src/collections/vec.rs', 'src/collections/raw_vec.rs', 'src/collections/collect_in.rs'))
+    # ---- R14 an iterator's size_hint sizes reservations only (std behaves identically for iterators whose hints lie)
+    from . import hinttaint
+    hinttaint.check(ctx, db, 'R14', ('src/collections/vec.rs', 'src/collections/raw_vec.rs', 'src/collections/collect_in.rs'))
     # ---- R10 the exported vec! macro (no MIR inside the crate: analysed on its expansion in a client probe)
     if config == 'rel-all':
         from . import macros
